@@ -1,7 +1,7 @@
 use serde::{Deserialize, Serialize};
 
 use crate::{
-    Document, FatToken,
+    Document, FatToken, Punctuation, Span, TokenKind,
     linting::{Lint, LintKind, Suggestion},
 };
 
@@ -27,20 +27,31 @@ impl LintContext {
         } = lint.clone();
 
         let problem_tokens = document.token_indices_intersecting(lint.span);
-        let prequel_tokens = lint
-            .span
-            .with_len(2)
-            .pulled_by(2)
-            .map(|v| document.token_indices_intersecting(v))
-            .unwrap_or_default();
-        let sequel_tokens = document.token_indices_intersecting(lint.span.with_len(2).pushed_by(2));
+        // The two characters before the lint (fewer at the very start of the document)...
+        let prequel_tokens = document.token_indices_intersecting(Span::new(
+            lint.span.start.saturating_sub(2),
+            lint.span.start,
+        ));
+        // ...and the two characters after its end.
+        let sequel_tokens =
+            document.token_indices_intersecting(Span::new_with_len(lint.span.end, 2));
 
         let tokens = prequel_tokens
             .into_iter()
             .chain(problem_tokens)
             .chain(sequel_tokens)
             .flat_map(|idx| document.get_token(idx))
-            .map(|t| t.to_fat(document.get_source()))
+            .map(|t| {
+                let mut fat = t.to_fat(document.get_source());
+
+                // The context must not depend on where in the document it is: a quote's twin
+                // is recorded as a token index, which moves whenever text is added before it.
+                if let TokenKind::Punctuation(Punctuation::Quote(quote)) = &mut fat.kind {
+                    quote.twin_loc = None;
+                }
+
+                fat
+            })
             .collect();
 
         Self {
